@@ -225,6 +225,10 @@ def files(ctx: Ctx):
     for i, d in enumerate(designs):
         if i % 4 == 2:
             one_base_constant_regions(ctx.rng, d)
+        if i % 4 == 0 and d.get('vcfs') and d['vcfs'][0]['records'] and not d.get('extra_contigs'):
+            # the first custom VCF compressed and indexed (bgzip + tabix): the same records must be reported (sorted by position, as an index requires)
+            d['vcfs'][0]['records'].sort(key=lambda r: (r.get('contig', d['contig']) != d['contig'], r['pos']))
+            d['vcfs'][0]['indexed'] = True
         if i % 4 == 3 and d.get('vcfs') and d['vcfs'][0]['records']:
             # the same record twice in one file (same identifier, or none): two records, two rows
             import random
